@@ -1,11 +1,14 @@
 #!/bin/bash
-# Re-runs every kept seed against the quick check of its property (in scratch worktrees); prints one line per seed.
+# Re-runs every kept seed against the quick check(s) recorded in its meta.json (confirmed_by_us.detected_by; the first entry is the
+# check that must report it) in scratch worktrees; prints one line per seed.  usage: tools/regress_seeds.sh [seed id prefix]
 cd "$(dirname "$0")/.."
 miss=0
-for d in seeded/*/; do
-  id=$(basename "$d"); prop=${id%%-*}
+for d in seeded/${1:-}*/; do
+  id=$(basename "$d")
+  prop=$(python3 -c "import json,sys; m=json.load(open('$d/meta.json')); print(m['confirmed_by_us']['detected_by'][0].split(':')[0])" 2>/dev/null)
+  [ -z "$prop" ] && prop=${id%%-*}
   res=$(tools/try_seed.sh "$d" "$prop" quick 2>&1 | tail -1)
-  echo "$id $res"
+  echo "$id [$prop] $res"
   case "$res" in *DETECTED*) ;; *) miss=$((miss+1));; esac
 done
 echo "missed=$miss"
